@@ -38,6 +38,25 @@ int main(void)
 		EQ("sha256msg2", vhm_mm_sha256msg2_epu32(a, b), _mm_sha256msg2_epu32(R(a), R(b)));
 		EQ("aesenc", vhm_mm_aesenc_si128(a, b), _mm_aesenc_si128(R(a), R(b)));
 		EQ("aesenclast", vhm_mm_aesenclast_si128(a, b), _mm_aesenclast_si128(R(a), R(b)));
+		EQ("and", vhm_mm_and_si128(a, b), _mm_and_si128(R(a), R(b)));
+		EQ("andnot", vhm_mm_andnot_si128(a, b), _mm_andnot_si128(R(a), R(b)));
+		EQ("sub_epi32", vhm_mm_sub_epi32(a, b), _mm_sub_epi32(R(a), R(b)));
+		EQ("add_epi64", vhm_mm_add_epi64(a, b), _mm_add_epi64(R(a), R(b)));
+		EQ("add_epi16", vhm_mm_add_epi16(a, b), _mm_add_epi16(R(a), R(b)));
+		EQ("add_epi8", vhm_mm_add_epi8(a, b), _mm_add_epi8(R(a), R(b)));
+		EQ("set1_epi32", vhm_mm_set1_epi32((int)a.d[0]), _mm_set1_epi32((int)a.d[0]));
+		EQ("set1_epi8", vhm_mm_set1_epi8((char)buf[0]), _mm_set1_epi8((char)buf[0]));
+		EQ("setr_epi32", vhm_mm_setr_epi32((int)a.d[0], (int)a.d[1], (int)a.d[2], (int)a.d[3]), _mm_setr_epi32((int)a.d[0], (int)a.d[1], (int)a.d[2], (int)a.d[3]));
+		EQ("setzero", vhm_mm_setzero_si128(), _mm_setzero_si128());
+		EQ("cvtsi32_si128", vhm_mm_cvtsi32_si128((int)a.d[2]), _mm_cvtsi32_si128((int)a.d[2]));
+		if (vhm_mm_cvtsi128_si32(a) != _mm_cvtsi128_si32(R(a))) { bad++; printf("MISMATCH cvtsi128_si32\n"); }
+		EQ("unpacklo32", vhm_mm_unpacklo_epi32(a, b), _mm_unpacklo_epi32(R(a), R(b)));
+		EQ("unpackhi32", vhm_mm_unpackhi_epi32(a, b), _mm_unpackhi_epi32(R(a), R(b)));
+		EQ("cmpeq32", vhm_mm_cmpeq_epi32(a, k % 3 ? b : a), _mm_cmpeq_epi32(R(a), R(k % 3 ? b : a)));
+		{ vh_m128i a2 = a; a2.d[k & 3] ^= 0xff00; EQ("cmpeq8", vhm_mm_cmpeq_epi8(a, a2), _mm_cmpeq_epi8(R(a), R(a2))); }
+		if (vhm_mm_movemask_epi8(a) != _mm_movemask_epi8(R(a))) { bad++; printf("MISMATCH movemask\n"); }
+		if (vhm_mm_extract_epi32(a, 2) != _mm_extract_epi32(R(a), 2)) { bad++; printf("MISMATCH extract\n"); }
+		EQ("insert_epi32", vhm_mm_insert_epi32(a, (int)b.d[0], 1), _mm_insert_epi32(R(a), (int)b.d[0], 1));
 		if (vhm_mm_crc32_u8(a.d[0], buf[0]) != _mm_crc32_u8(a.d[0], buf[0])) { bad++; printf("MISMATCH crc32_u8\n"); }
 		if (vhm_mm_crc32_u32(a.d[0], b.d[1]) != _mm_crc32_u32(a.d[0], b.d[1])) { bad++; printf("MISMATCH crc32_u32\n"); }
 		{ uint64_t x = ((uint64_t)a.d[1] << 32) | a.d[0], y = ((uint64_t)b.d[1] << 32) | b.d[0]; if (vhm_mm_crc32_u64(x, y) != _mm_crc32_u64(x, y)) { bad++; printf("MISMATCH crc32_u64\n"); } }
@@ -55,6 +74,11 @@ int main(void)
 #define F_ALIGNR(n) EQ("alignr", vhm_mm_alignr_epi8(a, b, n), _mm_alignr_epi8(R(a), R(b), n))
 #define F_KGA(n) EQ("aeskeygenassist", vhm_mm_aeskeygenassist_si128(a, n), _mm_aeskeygenassist_si128(R(a), n))
 		IMM8(F_SLLI32); IMM8(F_SRLI32); IMM8(F_SLLI16); IMM8(F_SRLI16); IMM8(F_SRLI64); IMM8(F_SHUF32); IMM8(F_SHUFLO); IMM8(F_SHUFHI);
+#define F_SRAI32(n) EQ("srai_epi32", vhm_mm_srai_epi32(a, n), _mm_srai_epi32(R(a), n))
+#define F_SRAI16(n) EQ("srai_epi16", vhm_mm_srai_epi16(a, n), _mm_srai_epi16(R(a), n))
+#define F_SLLI64(n) EQ("slli_epi64", vhm_mm_slli_epi64(a, n), _mm_slli_epi64(R(a), n))
+#define F_BLEND(n) EQ("blend_epi16", vhm_mm_blend_epi16(a, b, n), _mm_blend_epi16(R(a), R(b), n))
+		IMM8(F_SRAI32); IMM8(F_SRAI16); IMM8(F_SLLI64); IMM8(F_BLEND);
 		IMM8(F_SLLSI); IMM8(F_SRLSI); IMM8(F_ALIGNR); IMM8(F_KGA);
 	}
 	printf("x86 intrinsic models vs hardware: %d mismatches over 200000 operand sets\n", bad);
